@@ -524,7 +524,16 @@ pub fn building(r: &mut Rng, o: &GenOpts) -> Spec {
         }
         if want_cogen {
             let cid = if g.r.chance(1, 2) { 0 } else { *g.r.pick(&ID_POOL) };
-            ls.push(L { line: Line::Prod { id: cid, src: "EL_COGEN".into(), v: vec![], comment: comment(g.r, o.hostile_comments, "cogeneración") }, u: chp.clone() });
+            if g.r.chance(1, 4) {
+                // two cogeneration units (possibly on different systems): their production adds up
+                let a: Vec<i64> = chp.iter().map(|x| g.qr(*x, 0.0, 1.0).min(*x)).collect();
+                let b: Vec<i64> = chp.iter().zip(a.iter()).map(|(x, y)| x - y).collect();
+                let cid2 = if g.r.chance(1, 2) { cid } else { *g.r.pick(&ID_POOL) };
+                ls.push(L { line: Line::Prod { id: cid, src: "EL_COGEN".into(), v: vec![], comment: comment(g.r, o.hostile_comments, "cogeneración") }, u: a });
+                ls.push(L { line: Line::Prod { id: cid2, src: "EL_COGEN".into(), v: vec![], comment: String::new() }, u: b });
+            } else {
+                ls.push(L { line: Line::Prod { id: cid, src: "EL_COGEN".into(), v: vec![], comment: comment(g.r, o.hostile_comments, "cogeneración") }, u: chp.clone() });
+            }
             // fuel input: proportional with noise, or unrelated profile (fuel without electricity and vice versa)
             let nf = if g.r.chance(1, 3) { 2 } else { 1 };
             for k in 0..nf {
@@ -540,11 +549,17 @@ pub fn building(r: &mut Rng, o: &GenOpts) -> Spec {
                 }
                 ls.push(L { line: mk_used(cid, "COGEN", fuel, String::new()), u });
             }
-            if g.r.chance(1, 3) {
+            let thermal = g.r.chance(1, 3);
+            if thermal {
                 // thermal part of the cogenerator serving heating / DHW
                 let fuel = *g.r.pick(&FUELS);
                 let u = g.amounts(0.5, 2);
                 ls.push(L { line: mk_used(cid, *g.r.pick(&["CAL", "ACS"]), fuel, String::new()), u });
+            }
+            if want_aux && !ids.contains(&cid) && (thermal || o.aux_hostile) && g.r.chance(1, 3) {
+                // auxiliaries of the cogenerator itself (a system whose other lines are COGEN input and production)
+                let u = g.amounts(0.02, 2);
+                ls.push(L { line: Line::Aux { id: cid, v: vec![], comment: String::new() }, u });
             }
         }
     }
